@@ -146,6 +146,9 @@ def run(chk):
             ev = Evaluator({f"{subject}.distinct": flag})
             ev.skip_loops = True
             ev.lenient = True
+            from ..flags import module_functions
+
+            ev.functions = module_functions(mod, "SqlImpl" if mod is sql else None)
             tags = set()
             try:
                 outs = ev.run_block(stmts_)
@@ -178,8 +181,21 @@ def run(chk):
     chk.ob("R2", sql, scfg.func, "sql distinct=False -> sqa.union_all", ("call", "union_all") in ts[False] and ("call", "union") not in ts[False],
            "with distinct=False SQL does not use UNION ALL")  # fmt: skip
     # operand order
-    un = [c for c in calls_in(scfg.func) if (dotted(c.func) or "") in ("sqa.union", "sqa.union_all")]
-    chk.ob("R2", sql, scfg.func, "sql union(left_sel, right_sel)", bool(un) and all([norm(a) for a in c.args] == ["left_sel", "right_sel"] for c in un),
+    # operand order from the evaluation (whatever form the call takes): positional operands of union / union_all
+    un_pos = set()
+    for flag in (True, False):
+        ev = Evaluator({f"{scfg.subject}.distinct": flag})
+        ev.skip_loops = True
+        ev.lenient = True
+        try:
+            for _r, env, _d in ev.run_block(raw_s):
+                for v in env.values():
+                    for t in all_tags(v):
+                        if t[0] == "callpos" and t[1].split(".")[-1] in ("union", "union_all"):
+                            un_pos.add(t[2])
+        except Unsupported:
+            pass
+    chk.ob("R2", sql, scfg.func, "sql union(left_sel, right_sel)", bool(un_pos) and all(len(p_) == 2 and "right" not in p_[0] and "right" in p_[1] for p_ in un_pos),
            "the SQL union does not combine exactly the left and the right select")  # fmt: skip
     # the verb hands the flag through
     vb = repo.mod("pipe.verbs")
